@@ -99,6 +99,30 @@ func (x *Exec) enterBlock(st *State, b *ssa.BasicBlock, prev *ssa.BasicBlock, fr
 
 // funcEnv builds the evaluation environment for clauses of fi's contract.
 // mode: "pre" (params = args), "post" (params = entry values, results bound), "inv" (names = current cells)
+// applyDynType: "dyntype r *T" declares that the interface result r, when non-nil, holds a *T;
+// a plain interface value (e.g. the nil returned on an error path) is then viewed as a (nil) *T
+// so that clauses like "n == 32 ==> r.f == ..." can be evaluated on every path.
+func (x *Exec) applyDynType(fi *FuncInfo, name string, v Value) Value {
+	s, ok := v.(VScalar)
+	if !ok || s.Ty.K != TIface || fi.Spec == nil || fi.Fn.Pkg == nil {
+		return v
+	}
+	for _, c := range fi.Spec.Clauses {
+		if c.Kind != "dyntype" {
+			continue
+		}
+		f := strings.Fields(c.Text)
+		if len(f) == 2 && f[0] == name {
+			if tm, ok := fi.Fn.Pkg.Members[strings.TrimPrefix(f[1], "*")].(*ssa.Type); ok {
+				if named, ok := tm.Type().(*types.Named); ok {
+					return VIfaceObj{Obj: PObj{s.T, &STy{K: TPtr, Named: named}}, Ty: s.Ty}
+				}
+			}
+		}
+	}
+	return v
+}
+
 func (x *Exec) funcEnv(fi *FuncInfo, mode string, cur, old *State, args []Value, results []Value) *Env {
 	fn := fi.Fn
 	paramIdx := map[string]int{}
@@ -159,7 +183,7 @@ func (x *Exec) funcEnv(fi *FuncInfo, mode string, cur, old *State, args []Value,
 		}
 		if (mode == "post" || mode == "inv") && !isOld {
 			if i, ok := resIdx[name]; ok && results != nil && i < len(results) {
-				return results[i], true
+				return x.applyDynType(fi, name, results[i]), true
 			}
 		}
 		if i, ok := paramIdx[name]; ok {
@@ -215,6 +239,15 @@ func (w *World) VerifyFunc(fs *FuncSpec) {
 	if fi.Spec != fs {
 		w.errorf("%s: contract key mismatch (%s)", fs.Name, fi.Key)
 		return
+	}
+	for _, c := range fs.Clauses {
+		if c.Kind == "trusted" {
+			// the body is outside the verifier's reach: the contract is an ASSUMPTION for callers
+			// (a bounded concrete check of it may be configured per property)
+			w.Assumes["TRUSTED contract (body not verified): "+strings.TrimPrefix(fi.Key, modPath+"/")+" -- "+strings.TrimSpace(c.Text)] = true
+			w.Trusted[strings.TrimPrefix(fs.Pkg, modPath+"/")+"."+fs.Name] = true
+			return
+		}
 	}
 	for n := range fs.Loops {
 		if n < 1 || n > fi.NLoops {
@@ -497,9 +530,40 @@ func (x *Exec) parseAssigns(fi *FuncInfo, ev *Env) []assignItem {
 	return out
 }
 
+// ghostItem recognises an assigns item "g(e)" naming one entry of a ghost map.
+func (x *Exec) ghostItem(ev *Env, it string) (string, *SpecFn, *Term, bool) {
+	p := strings.Index(it, "(")
+	if p <= 0 || !strings.HasSuffix(it, ")") {
+		return "", nil, nil, false
+	}
+	fn := x.W.SpecFns[strings.TrimSpace(it[:p])]
+	if fn == nil || !fn.Ghost {
+		return "", nil, nil, false
+	}
+	if ev == nil {
+		return ghostKey(fn.Name), fn, nil, true
+	}
+	e, err := ParseExpr(it[p+1 : len(it)-1])
+	if err != nil {
+		vfail("assigns %s: %v", it, err)
+	}
+	v, err := ev.EvalVal(e)
+	if err != nil {
+		vfail("assigns %s: %v", it, err)
+	}
+	flat := flatten(v)
+	if len(flat) != 1 {
+		vfail("assigns %s: key is not a scalar", it)
+	}
+	return ghostKey(fn.Name), fn, flat[0], true
+}
+
 func (x *Exec) assignItem(fi *FuncInfo, ev *Env, it string) assignItem {
 	if it == "*" {
 		return assignItem{kind: "all", text: it}
+	}
+	if key, _, k, ok := x.ghostItem(ev, it); ok {
+		return assignItem{kind: "ghost", key: key, reg: k, text: it}
 	}
 	if strings.HasSuffix(it, "[*]") {
 		e, err := ParseExpr(strings.TrimSuffix(it, "[*]"))
@@ -775,10 +839,14 @@ func (x *Exec) argsFor(fr *frame) []Value {
 	return args
 }
 
+type heapWin struct{ reg, off, n *Term }
+
 type heapEff struct {
 	unknown bool
+	wins    []heapWin // element windows [off, off+n) of a region (assumed contracts of externals)
 	regs    []*Term
 	field   bool
+	ghost   bool // ghost map: keys are not memory references (no allocation bound in the frame)
 }
 
 type objRef struct {
@@ -805,6 +873,14 @@ func (x *Exec) havocLoop(st *State, fr *frame, lp *Loop) {
 	inLoop := &loopCtx{fn: fr.fi.Fn, blocks: lp.Blocks}
 	x.collectEffects(st, fr.fi.Fn, blocks, inLoop, eff, 0)
 	pre := st.clone()
+	// the allocation counter first: havocked variables may refer to memory allocated by earlier
+	// iterations (their well-formedness is stated against the NEW counter)
+	if eff.allocs {
+		na := FreshVar("alloc", RegSort)
+		st.assume(BVCmp("bvule", pre.alloc, na))
+		st.assume(BVCmp("bvult", na, BVInt(0x40000000, 32)))
+		st.alloc = na
+	}
 	// cells
 	var cells []*ssa.Alloc
 	for a := range eff.cells {
@@ -828,12 +904,6 @@ func (x *Exec) havocLoop(st *State, fr *frame, lp *Loop) {
 		for _, f := range facts {
 			st.assume(f)
 		}
-	}
-	if eff.allocs {
-		na := FreshVar("alloc", RegSort)
-		st.assume(BVCmp("bvule", pre.alloc, na))
-		st.assume(BVCmp("bvult", na, BVInt(0x40000000, 32)))
-		st.alloc = na
 	}
 	x.havocHeaps(st, pre, eff)
 	x.wfObjects(st, eff)
@@ -876,7 +946,19 @@ func (x *Exec) havocHeaps(st, pre *State, eff *effects) {
 		rho := BoundVar("r", RegSort, "reg")
 		var cond []*Term
 		var base *Term
-		if he.unknown {
+		if he.ghost && he.unknown {
+			for _, a := range x.assigns {
+				if a.kind == "ghost" && a.key == key {
+					cond = append(cond, Not(Eq(rho, a.reg)))
+				}
+			}
+			base = Var(key+"@0", preH.S)
+		} else if he.ghost {
+			for _, r := range he.regs {
+				cond = append(cond, Not(Eq(rho, r)))
+			}
+			base = preH
+		} else if he.unknown {
 			cond = append(cond, BVCmp("bvult", rho, x.alloc0))
 			for _, a := range x.assigns {
 				if a.kind == "region" || a.kind == "field" {
@@ -889,7 +971,27 @@ func (x *Exec) havocHeaps(st, pre *State, eff *effects) {
 			for _, r := range he.regs {
 				cond = append(cond, Not(Eq(rho, r)))
 			}
+			for _, w := range he.wins {
+				cond = append(cond, Not(Eq(rho, w.reg)))
+			}
 			base = preH
+			// a window: the rest of its region is unchanged (unless the region is also touched
+			// through another item of the same effect set)
+			for wi, w := range he.wins {
+				var distinct []*Term
+				for _, r := range he.regs {
+					distinct = append(distinct, Not(Eq(w.reg, r)))
+				}
+				for wj, w2 := range he.wins {
+					if wj != wi {
+						distinct = append(distinct, Not(Eq(w.reg, w2.reg)))
+					}
+				}
+				j := BoundVar("j", IdxSort, "s64")
+				outside := Or(BVCmp("bvslt", j, w.off), BVCmp("bvsle", BVBin("bvadd", w.off, w.n), j))
+				st.assume(Implies(And(distinct...), Forall([]*Term{j}, Implies(outside,
+					Eq(Select(Select(post, Mark(w.reg, "reg")), Mark(j, "s64")), Select(Select(preH, Mark(w.reg, "reg")), Mark(j, "s64")))))))
+			}
 		}
 		st.assume(Forall([]*Term{rho}, Implies(And(cond...), Eq(Select(post, Mark(rho, "reg")), Select(base, Mark(rho, "reg"))))))
 	}
@@ -907,8 +1009,29 @@ func (x *Exec) wfObjects(st *State, eff *effects) {
 		s := o.named.Underlying().(*types.Struct)
 		for f := 0; f < s.NumFields(); f++ {
 			ft := tyFromGo(s.Field(f).Type())
-			if ft.K == TSlice || ft.K == TPtr {
+			if ft.K == TSlice || ft.K == TPtr || ft.K == TArray {
 				x.wfLoaded(st, loadField(st, o.named, f, o.ref))
+			}
+		}
+	}
+}
+
+// wfResultObject: the object a call returned (and, one level down, the objects it points to)
+// holds well-formed slice headers, live references and allocated array storage.
+func (x *Exec) wfResultObject(st *State, p PObj, depth int) {
+	if p.Ty == nil || p.Ty.Named == nil || depth > 2 {
+		return
+	}
+	s, ok := p.Ty.Named.Underlying().(*types.Struct)
+	if !ok {
+		return
+	}
+	for f := 0; f < s.NumFields(); f++ {
+		ft := tyFromGo(s.Field(f).Type())
+		if ft.K == TSlice || ft.K == TPtr || ft.K == TArray {
+			v := x.wfLoaded(st, loadField(st, p.Ty.Named, f, p.Ref))
+			if q, ok := v.(PObj); ok && ft.Named != p.Ty.Named {
+				x.wfResultObject(st, q, depth+1)
 			}
 		}
 	}
@@ -944,6 +1067,20 @@ func (x *Exec) addHeapEff(st *State, eff *effects, e *STy, regs []*Term, unknown
 		if unknown {
 			he.unknown = true
 		}
+	}
+}
+
+func (x *Exec) addGhostEff(st *State, eff *effects, fn *SpecFn, keys []*Term, unknown bool) {
+	k := ghostKey(fn.Name)
+	ensureHeap(st, k, x.W.retTy(fn).scalarSort(), true)
+	he := eff.heaps[k]
+	if he == nil {
+		he = &heapEff{ghost: true, field: true}
+		eff.heaps[k] = he
+	}
+	he.regs = append(he.regs, keys...)
+	if unknown {
+		he.unknown = true
 	}
 }
 
@@ -1226,6 +1363,35 @@ func (x *Exec) callEffect(st *State, i *ssa.Call, inLoop *loopCtx, fn *ssa.Funct
 	}
 	if ext := x.W.FuncSpecs[externKey(callee)]; ext != nil {
 		x.resultEffects(st, callee, eff)
+		for _, c := range ext.Clauses {
+			if c.Kind != "assigns" || strings.TrimSpace(c.Text) == "nothing" {
+				continue
+			}
+			for _, it := range strings.Split(c.Text, ",") {
+				it = strings.TrimSpace(it)
+				if _, gfn, _, ok := x.ghostItem(nil, it); ok {
+					x.addGhostEff(st, eff, gfn, nil, true)
+					continue
+				}
+				done := false
+				if strings.HasSuffix(it, "[*]") {
+					base := strings.TrimSuffix(it, "[*]")
+					for j, p := range ext.Params {
+						if p.Name == base && j < len(c2args(i)) {
+							t := tyFromGo(c2args(i)[j].Type())
+							if t.K == TSlice {
+								regs, ok := x.rootRegion(st, c2args(i)[j], inLoop, fn, 0)
+								x.addHeapEff(st, eff, t.Elem, regs, !ok)
+								done = true
+							}
+						}
+					}
+				}
+				if !done {
+					vfail("effects: cannot resolve assigns item %q of external %s", it, externKey(callee))
+				}
+			}
+		}
 		return
 	}
 	// unknown callee: results havocked; assumed not to write caller-visible memory only if it
@@ -1238,6 +1404,8 @@ func (x *Exec) callEffect(st *State, i *ssa.Call, inLoop *loopCtx, fn *ssa.Funct
 	}
 	x.resultEffects(st, callee, eff)
 }
+
+func c2args(i *ssa.Call) []ssa.Value { return i.Common().Args }
 
 func (x *Exec) resultEffects(st *State, callee *ssa.Function, eff *effects) {
 	res := callee.Signature.Results()
@@ -1265,6 +1433,12 @@ func (x *Exec) typeHeapEffects(st *State, t *STy, eff *effects) {
 				continue
 			}
 			x.addFieldEff(st, eff, t.Named, f, nil, false)
+			if ft.K == TPtr && ft.Named != t.Named {
+				x.typeHeapEffects(st, ft, eff) // objects reachable from a fresh result may be fresh too
+			}
+			if ft.K == TArray {
+				x.addHeapEff(st, eff, ft.Elem, nil, false)
+			}
 		}
 	}
 }
@@ -1284,6 +1458,10 @@ func (x *Exec) contractEffect(st *State, fi *FuncInfo, eff *effects) {
 // assignTextEffect registers heap keys touched by an assigns item of a callee (regions unknown).
 func (x *Exec) assignTextEffect(st *State, fi *FuncInfo, it string, eff *effects) {
 	fn := fi.Fn
+	if _, gfn, _, ok := x.ghostItem(nil, it); ok {
+		x.addGhostEff(st, eff, gfn, nil, true)
+		return
+	}
 	if strings.HasSuffix(it, "[*]") {
 		base := strings.TrimSuffix(it, "[*]")
 		// find the type: param or field path
